@@ -19,6 +19,7 @@ RULE = ("secret keys of the four curves (uniform valid scalars plus 1, n-1, high
         "64-byte form) preserves the key, wrong passphrase rejected, validate_mnemonic accepts iff the independent "
         "BIP-39 checksum accepts, from_mnemonic deterministic and equal to an independent PBKDF2 derivation; the wallet-file route "
         "(from_faucet) accepts exactly the same sentences and derives the same key. "
+        "Volume sub-check: 800 (thorough 6400) further secrets per curve (Ed25519, secp256k1, P-256), public key and address only. "
         "Non-trivial: case exercises encryption or a mnemonic. Distinct = distinct case.")
 
 os.environ.setdefault("PYTEZOS_PASSPHRASE", "")  # never prompt
@@ -195,6 +196,8 @@ def _valid_scalar(curve, seed):
 
 
 def oracle(case):
+    if case["mode"] == "bulk":
+        return oracle_bulk(case)
     if case["mode"] == "key":
         return check_key(case)
     return check_mnemonic(case)
@@ -257,7 +260,38 @@ def _prop(case, stats):
         stats.label("lang:%s" % case.get("lang", "english"))
 
 
+def oracle_bulk(case):
+    """Many secrets of one curve: public key and address against the independent derivation (shapes such as a coordinate with a leading
+    zero byte occur once in 256 keys: they need volume rather than variety)."""
+    from pytezos.crypto.key import Key
+    curve = case["curve"]
+    for i in range(case["start"], case["start"] + case["n"]):
+        sec = hashlib.sha256(b"c08-bulk-%s-%d" % (curve.encode(), i)).digest()
+        if curve != "ed" and not _valid_scalar(curve, sec):
+            continue
+        one = dict(case, start=i, n=1)
+        try:
+            k = Key.from_secret_exponent(sec, curve.encode())
+            pk, pkh = k.public_key(), k.public_key_hash()
+        except Exception as e:
+            raise Violation("key #%d of curve %s: deriving the public key / address raised %r" % (i, curve, e), one, "bulk-raise:" + curve)
+        pub = rc.derive_public(curve, sec)
+        if pk != rc.tz_encode(pub, rc.CURVE_PK[curve]):
+            raise Violation("key #%d of curve %s: public key %s, independent derivation %s" % (i, curve, pk, rc.tz_encode(pub, rc.CURVE_PK[curve])),
+                            one, "bulk-public-key:" + curve)
+        if pkh != rc.tz_encode(rc.blake2b_20(pub), rc.CURVE_PKH[curve]):
+            raise Violation("key #%d of curve %s: address %s is not the hash of its public key" % (i, curve, pkh), one, "bulk-address:" + curve)
+
+
+def _prop_bulk(case, stats):
+    oracle_bulk(case)
+    stats.case(case, True, "bulk:" + case["curve"], sample={"curve": case["curve"], "start": case["start"], "n": case["n"]})
+
+
 def run(h):
+    n = 50 if h.quick else 400
+    base = (h.seed % 1000) * 100000
+    h.run_enum([{"mode": "bulk", "curve": c, "start": base + j * n, "n": n} for c in ("p2", "sp", "ed") for j in range(16)], _prop_bulk, shards=16)
     sh = 8 if h.quick else 16
     # BLS derivation is slow (~0.1 s): shrinking is disabled for the key family
     h.run_given(lambda: key_cases(False), _prop, h.n(40, 1500), shards=sh, name="keys", shrink=False)
